@@ -60,6 +60,7 @@ pub fn generate(rng: &mut Rng, seed: u64, run: u64, max_len: usize) -> Trace {
         wl = gen::Workload { bytes, toks: vec![] };
         ops = lit_ops;
     }
+    maybe_insert_fmt_panic(rng, &mut ops);
     let fault_free = rng.chance(1, 5);
     let faults = if fault_free {
         vec![]
@@ -355,6 +356,26 @@ impl Client<'_> {
                     return Err(v);
                 }
                 return Ok(true);
+            }
+            (res, Applied::FmtPanic) => {
+                // the argument panicked before anything was handed to the stream; the client caught
+                // the panic and carries on.  Whatever formatting strategy the stream uses, nothing
+                // of this call can have been consumed: the inner writer and the parser position
+                // must be what they were (checked by the strict invariant now and by every later call)
+                match res {
+                    OpResult::Panic(m) if m.contains(PANICKER_SAYS) => self.st.probe("display_panicked_before_writing_stream_reused"),
+                    OpResult::Panic(m) => return Err(viol("panic", format!("{what}: {m}")).unwrap()),
+                    _ => self.st.probe("panicking_display_did_not_propagate"),
+                }
+                if d_after != d_before {
+                    return Err(viol("wrong-bytes", format!("{what}: the argument panicked before writing anything, yet the inner writer received {} more bytes", d_after - d_before)).unwrap());
+                }
+                if self.aftermath.is_none() {
+                    if let Some(v) = self.check_invariants(true, &what) {
+                        return Err(v);
+                    }
+                }
+                return Ok(false);
             }
             (OpResult::Panic(m), _) => return Err(viol("panic", format!("{what}: {m}")).unwrap()),
             (OpResult::NoProgress, _) => {
